@@ -315,7 +315,32 @@ def r14c(P, R):
                 R.check("R14-c", "suffix:" + vv, got == {exp.get(vv)}, "%s -> %s" % (vv, exp.get(vv)), "%s operations get suffix %s" % (vv, sorted(got)), loc=ovn.loc())
 
 
-RULES = [("R14-a", r14a), ("R14-b", r14b), ("R14-c", r14c)]
+def r14d(P, R):
+    """both printers are functions of (document, config) only: no state survives from one file / one config to the next"""
+    from templates import global_state_holders, global_state_uses
+    holders = global_state_holders(P)
+    R.floor("R14-d", "global state holders found in the workspace (detector control)", len(holders), 6)
+    PRN = "nitrogql_printer::"
+    entries = [P.fn("graphql_loader::js_printer::print_js"), P.fn(PRN + "operation_js_printer::print_js_for_operation_document"),
+               P.fn(PRN + "operation_type_printer::print_types_for_operation_document")]
+    scope = [P.fns[p] for p in P.reachable(entries) if not P.fns[p].derived]
+    ALLOWED = {"nitrogql_ast::current_file::CURRENT_FILE_OF_POS": "file index for positions; does not select names or exports"}
+    bad = 0
+    for f, h, missing, key in global_state_uses(P, scope, holders):
+        if h in ALLOWED:
+            continue
+        bad += 1
+        if missing:
+            R.violated("R14-d", "state:%s" % short(h), "%s keeps a value in the thread-local/static %s that was computed from %s but is reused for "
+                       "every later call (key: %s): after the configuration changes, the loader keeps naming/exporting by the old options while "
+                       "`generate` uses the new ones" % (f.path, h, missing, key or "none"), loc=f.loc())
+        else:
+            R.undecided("R14-d", "state:%s" % short(h), "%s uses global state %s; its effect on the output is not decided" % (f.path, h), loc=f.loc())
+    if not bad:
+        R.holds("R14-d", "stateless", "%d functions reachable from the two printers touch no global state holder" % len(scope))
+
+
+RULES = [("R14-a", r14a), ("R14-b", r14b), ("R14-c", r14c), ("R14-d", r14d)]
 EXPLANATION = (
     "Agreement between the declaration printer and the JS (loader) printer, decided on code shape: (R14-a) both run the shared "
     "OperationPrinter::print_document, both take base options from OperationBasePrinterOptions::from_config(config) of the config "
